@@ -116,10 +116,6 @@ func runC18(e *emitter, idx int, c *PrintCase) {
 		} else {
 			pb3, _ = solver.ParseOPB(strings.NewReader(text))
 		}
-		if o.hasNegCost() { // optimising with a negative cost coefficient is finding D6 (C03): only the texts are compared
-			reVerdict = -1
-			return
-		}
 		res := solver.New(pb3).Optimal(nil, nil)
 		reVerdict = verdictCode(res.Status)
 		reWeight = res.Weight
